@@ -9,7 +9,7 @@ from .. import common
 from ..common import sig_key
 
 LEVEL = "exploration"
-RULE = "Real executions of autograd.test_util.check_grads on user primitives (scalar, vector, matrix, broadcasting binary, complex vector, complex 0-d scalar, real-valued non-holomorphic |z|^2 of a complex scalar/vector, tuple-of-arrays arguments) whose VJP/JVP rules are correct (must pass: 0 rejections tolerated) or carry one planted defect from {factor 1+-1e-2/1e-1/1, sign, reversal/transpose, missing reduction over a broadcast axis, one entry off by 10%/100%, dropped conjugate, leaf swap, one NaN / inf entry, rule not traceable (order-2 defect)} in the VJP, the JVP or the rule's own derivative; requested modes rev/fwd/both and orders 1-2; every trial reseeds NumPy's global generator so the checker's own projections vary. Verdict per defect setting: one-sided exact binomial test of p>=0.99 at alpha=1e-9. combo_check over 3 positional x 2 keyword candidates with the defect active for exactly one combination (each combination in turn) plus a trace of which combinations the primal was evaluated on (all must be). Also check_grads on correct built-in elementwise/reduction primitives at regular points. Non-trivial iff >= 1 trial ran; distinct = distinct (argument kind, defect, where, modes, order) settings."
+RULE = "Real executions of autograd.test_util.check_grads on user primitives (scalar, vector, matrix, broadcasting binary, complex vector, complex 0-d scalar, real-valued non-holomorphic |z|^2 of a complex scalar/vector, complex matrix whose derivative is a transposed view, tuple-of-arrays and dict arguments (rule building its dict in another key order)) whose VJP/JVP rules are correct (must pass: 0 rejections tolerated) or carry one planted defect from {factor 1+-1e-2/1e-1/1, sign, reversal/transpose, missing reduction over a broadcast axis, one entry off by 10%/100%, dropped conjugate, leaf swap, one NaN / inf entry, rule not traceable (order-2 defect)} in the VJP, the JVP or the rule's own derivative; requested modes rev/fwd/both and orders 1-2; every trial reseeds NumPy's global generator so the checker's own projections vary. Verdict per defect setting: one-sided exact binomial test of p>=0.99 at alpha=1e-9. combo_check over 3 positional x 2 keyword candidates with the defect active for exactly one combination (each combination in turn) plus a trace of which combinations the primal was evaluated on (all must be). Also check_grads on correct built-in elementwise/reduction primitives at regular points. Non-trivial iff >= 1 trial ran; distinct = distinct (argument kind, defect, where, modes, order) settings."
 ASSUMPTIONS = ["statistical statement: alpha=1e-9 per setting; 'small relative error' fixed at >= 1e-2 (1e-3 is measured and reported only)", "points are well scaled: |values|,|derivatives| <= 10"]
 
 
@@ -149,6 +149,37 @@ def build(kind, defect, where, rng):
         if kind == "cabs2_scalar":
             return P, (complex(rng.uniform(0.3, 1.2), rng.uniform(0.3, 1.2)),)
         return P, (rng.uniform(0.3, 1.2, size=3) + 1j * rng.uniform(0.3, 1.2, size=3),)
+    if kind == "cmatrix":
+        # complex matrix argument; the derivative comes back as a transposed (non C-contiguous) view
+        B = rng.uniform(0.5, 1.5, size=(3, 2)) + 1j * rng.uniform(0.2, 0.8, size=(3, 2))
+        P = primitive(lambda Z: onp.dot(Z.T, B))  # (2,3)->(3,2)... Z is (3,3)
+        defvjp(P, lambda ans, Z: lambda g: apply_defect(anp.transpose(anp.dot(g, B.T)) if dv != "transpose" else anp.dot(g, B.T), None if dv == "transpose" else dv, ctx))
+        defjvp(P, lambda g, ans, Z: apply_defect(anp.dot(anp.transpose(g) if dj != "transpose" else g, B), None if dj == "transpose" else dj, ctx))
+        return P, (rng.uniform(0.3, 1.2, size=(3, 3)) + 1j * rng.uniform(0.3, 1.2, size=(3, 3)),)
+    if kind == "dictarg":
+        # f({"a": a, "b": b}) = a*sin(b); the rule builds its gradient dict in ANOTHER key order
+        P = primitive(lambda d: d["a"] * onp.sin(d["b"]))
+
+        def vd(ans, d):
+            def vjp(g):
+                import autograd.builtins as ab
+
+                ga = g * anp.sin(d["b"])
+                gb = g * d["a"] * anp.cos(d["b"])
+                if dv == "leaf_swap":
+                    return ab.dict([("b", ga), ("a", gb)])
+                return ab.dict([("b", gb), ("a", apply_defect(ga, dv, ctx))])
+
+            return vjp
+
+        defvjp(P, vd)
+
+        def jd(g, ans, d):
+            a, b = (g["b"], g["a"]) if dj == "leaf_swap" else (g["a"], g["b"])
+            return apply_defect(a * anp.sin(d["b"]), dj, ctx) + b * d["a"] * anp.cos(d["b"])
+
+        defjvp(P, jd)
+        return P, ({"a": rng.uniform(0.3, 1.2, size=3), "b": rng.uniform(0.3, 1.2, size=3)},)
     if kind == "container":
         # f((a, b)) = a*sin(b) with a, b of the same shape: swapping the leaves keeps the structure
         P = primitive(lambda t: t[0] * onp.sin(t[1]))
@@ -209,22 +240,29 @@ def build_combo(st, rng):
 
 def settings(tier):
     out = []
-    kinds = ["scalar", "vector", "matrix", "bcast", "complex", "container", "cscalar", "cabs2_scalar", "cabs2_vector"]
+    kinds = ["scalar", "vector", "matrix", "bcast", "complex", "container", "cscalar", "cabs2_scalar", "cabs2_vector", "cmatrix", "dictarg"]
     for kind in kinds:
-        out.append({"kind": kind, "defect": None, "where": None, "modes": ["fwd", "rev"], "order": 2})
-        out.append({"kind": kind, "defect": None, "where": None, "modes": ["rev"], "order": 1})
-        out.append({"kind": kind, "defect": None, "where": None, "modes": ["fwd"], "order": 2})
+        if kind == "dictarg":
+            # autograd's dict constructor has no forward rule: a rule that builds a dict cannot be differentiated
+            # again in forward mode (loud NotImplementedError, C17's subject) - orders / modes restricted accordingly
+            out.append({"kind": kind, "defect": None, "where": None, "modes": ["rev"], "order": 2})
+            out.append({"kind": kind, "defect": None, "where": None, "modes": ["rev"], "order": 1})
+            out.append({"kind": kind, "defect": None, "where": None, "modes": ["fwd"], "order": 1})
+        else:
+            out.append({"kind": kind, "defect": None, "where": None, "modes": ["fwd", "rev"], "order": 2})
+            out.append({"kind": kind, "defect": None, "where": None, "modes": ["rev"], "order": 1})
+            out.append({"kind": kind, "defect": None, "where": None, "modes": ["fwd"], "order": 2})
         defects = ["factor:0.01", "factor:-0.01", "factor:0.1", "factor:1.0", "sign", "entry:0.1", "entry:1.0"]
         if kind in ("vector",):
             defects.append("reverse")
-        if kind == "matrix":
+        if kind in ("matrix", "cmatrix"):
             defects.append("transpose")
         if kind == "bcast":
             defects.append("missing_reduction")
         if kind in ("complex", "cscalar", "cabs2_scalar", "cabs2_vector"):
             defects.append("drop_conj")
         defects += ["nan_entry", "inf_entry"]
-        if kind == "container":
+        if kind in ("container", "dictarg"):
             defects.append("leaf_swap")
         if kind in ("scalar", "cscalar", "cabs2_scalar"):
             defects = [d for d in defects if not d.startswith("entry")]
@@ -232,10 +270,10 @@ def settings(tier):
             for where in ("vjp", "jvp"):
                 m = "rev" if where == "vjp" else "fwd"
                 out.append({"kind": kind, "defect": d, "where": where, "modes": [m], "order": 1})
-                if d in ("factor:0.1", "sign", "entry:1.0"):
+                if d in ("factor:0.1", "sign", "entry:1.0") and kind != "dictarg":
                     out.append({"kind": kind, "defect": d, "where": where, "modes": ["fwd", "rev"], "order": 2})
         # order-2 defects: first-order values right, rule not traceable
-        if kind not in ("container", "bcast", "cabs2_scalar", "cabs2_vector"):
+        if kind not in ("container", "bcast", "cabs2_scalar", "cabs2_vector", "cmatrix", "dictarg"):
             for where in ("vjp", "jvp"):
                 m = "rev" if where == "vjp" else "fwd"
                 out.append({"kind": kind, "defect": "order2_untraceable", "where": where, "modes": [m], "order": 2})
